@@ -17,12 +17,13 @@ from txtorcon.torcontrolprotocol import TorDisconnectError  # noqa: E402
 
 PROPERTY = 'C03'
 ASSUMPTIONS = [
-    'protocol object real; transport = list-recording double; state 7 uses the real makeConnection (PROTOCOLINFO outstanding)',
+    'protocol object real; transport = list-recording double; states 7-9 use the real makeConnection (PROTOCOLINFO / AUTHENTICATE outstanding)',
     'the partial next line is delivered through the real dataReceived so the line buffer is non-empty at the loss',
     'a disconnect notification is delivered when its Deferred fires once with the disconnect failure',
     'retry: every failing command re-submits one command from its errback (re-entrancy into queue_command during the loss)',
+    'nsub: the first disconnect notification requested before the loss submits one command from inside its callback',
 ]
-BOUNDS = {'quick': {'pre_loss_states': 8, 'post_loss_commands': '0..3 (plain/callback)', 'when_disconnected_requests': '0..2 before, 0..2 after',
+BOUNDS = {'quick': {'pre_loss_states': '10 (idle, 1-3 commands plain / callback, mid-reply, mid-data-block, PROTOCOLINFO outstanding, AUTHENTICATE outstanding under NULL and password auth with a command queued behind)', 'post_loss_commands': '0..3 (plain/callback)', 'when_disconnected_requests': '0..2 before, 0..2 after',
                     'partial_line_prefix': 'prefix lengths {0,1,9,len-2,len-1} (quick), every prefix length (thorough)'},
           'thorough': {'post_loss_commands': '0..4'}}
 OUTSIDE = ['a second connectionLost notification', 'more than 2 queued commands before the loss']
@@ -34,7 +35,7 @@ def _is_disconnect_failure(o):
     return o.err == 1 and isinstance(o.exc(), TorDisconnectError)
 
 
-def _loss(st, nbytes, clean, m, kinds, wb, wa, retry=False):
+def _loss(st, nbytes, clean, m, kinds, wb, wa, retry=False, nsub=False):
     p, t = fakes.new_protocol()
     outs = []
     cbl = []
@@ -54,10 +55,20 @@ def _loss(st, nbytes, clean, m, kinds, wb, wa, retry=False):
         return o
 
     with api.no_tracing():     # concrete prefix of the session
-        if st == 7:
+        if st in (7, 8, 9):
             p.transport = None
+            if st == 9:
+                p.password_function = lambda: 'secret word'
             p.makeConnection(t)
             boot = fakes.Outcome(p.post_bootstrap)
+            if st >= 8:
+                # Tor advertises NULL (8: a bare AUTHENTICATE goes out) or a password (9: AUTHENTICATE "..."); the loss comes
+                # while that AUTHENTICATE is outstanding, with one user command queued behind it
+                p.dataReceived(b'250-PROTOCOLINFO 1\r\n250-AUTH METHODS=' + (b'NULL' if st == 8 else b'HASHEDPASSWORD') +
+                               b'\r\n250-VERSION Tor="0.4.8.9"\r\n250 OK\r\n')
+                if not t.value().split(b'\r\n')[-2].startswith(b'AUTHENTICATE'):
+                    return 'harness: AUTHENTICATE not outstanding: %r' % (t.value(),)
+                outs.append(watch(p.queue_command('GETINFO queued-behind-authenticate'), 'q'))
         else:
             boot = None
             if st >= 1:
@@ -72,8 +83,15 @@ def _loss(st, nbytes, clean, m, kinds, wb, wa, retry=False):
             if st == 6:
                 p.dataReceived(b'250+k=\r\ndata line\r\n')
     wd = []
-    for _ in range(wb):
-        wd.append(fakes.Outcome(p.when_disconnected()))
+    for k in range(wb):
+        dn = p.when_disconnected()
+        if nsub and k == 0:
+            # the first notified party reacts by submitting a command from inside its notification
+            def react(f):
+                outs.append(fakes.Outcome(p.queue_command('GETINFO from-notification')))
+                return f
+            dn.addBoth(react)
+        wd.append(fakes.Outcome(dn))
     try:
         if st >= 1:
             p.dataReceived(NEXT_LINE[:nbytes])
@@ -106,13 +124,14 @@ def _loss(st, nbytes, clean, m, kinds, wb, wa, retry=False):
     return ''
 
 
-_ST = [{'st': s} for s in range(8)]
-_STM = [{'st': s, 'm': m} for s in range(8) for m in range(4)]
+NST = 10
+_ST = [{'st': s} for s in range(NST)]
+_STM = [{'st': s, 'm': m} for s in range(NST) for m in range(4)]
 _OFFS = (0, 1, 9, len(NEXT_LINE) - 2, len(NEXT_LINE) - 1)
 
 
 @cond(quick=dict(parts=_STM, budget=100))
-def c03_loss(nbytes: int, clean: bool, m: int, k1: bool, k2: bool, k3: bool, wb: int, wa: int, st: int, retry: bool) -> str:
+def c03_loss(nbytes: int, clean: bool, m: int, k1: bool, k2: bool, k3: bool, wb: int, wa: int, st: int, retry: bool, nsub: bool) -> str:
     """loss in state st with a symbolic partial line (prefix lengths 0, 1, middle, all but LF, all but CRLF's LF),
     then m commands and notification requests"""
     nbytes = api.pick_from(nbytes, _OFFS)
@@ -125,11 +144,13 @@ def c03_loss(nbytes: int, clean: bool, m: int, k1: bool, k2: bool, k3: bool, wb:
         assume(not k2)
     if m < 1:
         assume(not k1)
-    return _loss(st, nbytes, clean, m, [k1, k2, k3], wb, wa, retry)
+    if wb == 0 or retry or wa != 0:
+        assume(not nsub)       # (quick) the notification re-entrancy is tried without the other re-entrancy and without late requests
+    return _loss(st, nbytes, clean, m, [k1, k2, k3], wb, wa, retry, nsub)
 
 
-@cond(thorough=dict(parts=[{'st': s, 'm': m} for s in range(8) for m in range(5)], budget=900))
-def c03_loss4(nbytes: int, clean: bool, m: int, k1: bool, k2: bool, k3: bool, k4: bool, wb: int, wa: int, st: int, retry: bool) -> str:
+@cond(thorough=dict(parts=[{'st': s, 'm': m} for s in range(NST) for m in range(5)], budget=900))
+def c03_loss4(nbytes: int, clean: bool, m: int, k1: bool, k2: bool, k3: bool, k4: bool, wb: int, wa: int, st: int, retry: bool, nsub: bool) -> str:
     """up to 4 post-loss commands"""
     nbytes = api.pick(nbytes, 0, len(NEXT_LINE) - 1)
     wb = api.pick(wb, 0, 2)
@@ -143,4 +164,6 @@ def c03_loss4(nbytes: int, clean: bool, m: int, k1: bool, k2: bool, k3: bool, k4
         assume(not k2)
     if m < 1:
         assume(not k1)
-    return _loss(st, nbytes, clean, m, [k1, k2, k3, k4], wb, wa, retry)
+    if wb == 0:
+        assume(not nsub)
+    return _loss(st, nbytes, clean, m, [k1, k2, k3, k4], wb, wa, retry, nsub)
